@@ -19,6 +19,9 @@ CHECKS = {
  "C09": ("model_checking", "TLC checks bag inclusion of the results (by content id) of previous and current data in the output of every successful recorded run.", "TLA+ trace validation; invariant Props!C09"),
  "C10": ("model_checking", "TLC evaluates the independent recursive-descent reader AirData!WF on every trace the real code produced (runs and observer merges).", "TLA+ trace validation; invariant AirData!WF"),
  "C01": ("fault_enumeration", "TLC enumerates (a) structural tamper operations on everything no signature covers (par sizes, fold lore positions/lengths, generations, state kinds, store entries referenced from the trace, raw values of the attacker's re-signed results, truncation/duplication; pairs in the thorough tier) x positions x boundary values x victim states over data of four honest base histories, (b) token-level mutations of scripts through parse/beautify/execute, (c) byte-level mutations of honest data through execute and pretty-printing, (d) every script of the generated AST family executed to quiescence. Each input runs on the real code under catch_unwind in a child process with an address-space ceiling and a journal; TLC validates that no record reports a panic or a dead process. Six crashes found this way are repaired by fix: commits, two are recorded as known findings.", "TLA+ enumeration of fault cases (Adversary.tla, FnSpec.tla) + fault injection on the real code + trace validation"),
+ "C11": ("model_checking", "TLC evaluates on every recorded run (TraceConf!InvC11): the canon results in the produced data equal, element by element and in order, those the model interpreter computes from its own streams for the same inputs (a canon fixed now holds exactly what the designated peer's stream holds; a canon carried over is unchanged), and - model-free - a canon created in the run lists its values in the generation order of that peer's output (Props!C11order). Divergent canon results of one instance are caught by C04/C09 on every merge.", "TLA+ trace validation with the model interpreter's streams as oracle (AirInterp stage 2)"),
+ "C12": ("model_checking", "TLC checks on every pair of consecutive data of a peer (Props!C12, model-free, by content of the stream values): relative generation order preserved, values new to the peer after the old ones, received before produced; and against the model: every pair of stream values is ordered as in the model's output (TraceConf!InvC12).", "TLA+ trace validation; model-free order relation + model oracle"),
+ "C13": ("model_checking", "TLC compares on every recorded run the bag of canon contents (local canons are the observation points of the streams), the bag of requests issued (fold bodies call tagging services per visited value) and the number of stream-append states with the model interpreter's outcome for the same inputs (TraceConf!InvC13). The design runs check the model's streams on every schedule of the stream catalogue.", "TLA+ trace validation with the model's stream contents as oracle"),
  "C14": ("fault_enumeration", "TLC enumerates the whole catalogue of tamper operations (value swap in place / with consistent re-hash, tetraplet and argument-hash change, relocation and replay of a result at another call, state-kind change, result removal, signature drop/swap, particle-id change; pairs in the thorough tier) x target positions x victim states; each is applied by the harness to honest data (attacker re-signs only his own results) and run on the real victim; TLC checks that every result attributed to an honest peer in the victim's new data is one that peer really produced (C14a) and that the new data re-reads without parameter mismatch under the model interpreter (C14b). The ideal-signature model's accept/reject decision is compared with the implementation's on every case (reported as conformance).", "TLA+ enumeration of tamper cases (Adversary.tla) + fault injection on the real code + trace validation"),
  "C15": ("fault_enumeration", "Same enumeration, invariant Adversary!C15a/b: per-peer content-id bags of previous and current data that are not nested => rejected in preparation with the previous data returned; otherwise the new data holds the larger bag. Honest part: TraceNet!InvC15 checks nestedness and non-rejection on every run of seeded honest histories.", "TLA+ enumeration of fork/tamper cases + trace validation (Adversary.tla, TraceNet!InvC15)"),
  "C16": ("model_checking", "Every request any host receives in recorded histories of fragment scripts is checked by TLC (TraceNet!InvC16) for bag inclusion in the calls of the independent sequential evaluator SeqSem (same peer, service, function, argument values).", "TLA+ trace validation against the sequential reference evaluator SeqSem.tla"),
@@ -36,9 +39,6 @@ CHECKS = {
 }
 
 NOT_YET = {
- "C11": "needs the model annotator (stage 2 of the interpreter specification); not built yet",
- "C12": "needs stream-aware annotator (stage 2); not built yet",
- "C13": "needs the model's stream contents as oracle (stage 2); not built yet",
  "C18": "failure-kind generator not built yet",
  "C25": "function-level specification not built yet",
  "C26": "function-level specification not built yet",
